@@ -40,6 +40,17 @@ theorem keys_set (l : List (κ × ν)) (k : κ) (v : ν) : keys (set l k v) = in
       split <;> simp
 end AL
 
+theorem AL.get_map_val {κ ν μ : Type} [BEq κ] (f : ν → μ) (l : List (κ × ν)) (k : κ) :
+    AL.get (l.map (fun p => (p.1, f p.2))) k = (AL.get l k).map f := by
+  induction l with
+  | nil => rfl
+  | cons p rest ih =>
+    obtain ⟨k0, v0⟩ := p
+    simp only [List.map_cons, AL.get]
+    split
+    · rfl
+    · exact ih
+
 /-- rune existence and mint counts agree -/
 structure RInv (rs : ReplayState) (st : State) : Prop where
   runes : rs.runes = AL.keys st.runeEntries
@@ -224,5 +235,180 @@ theorem flushBurned_rframe : ∀ (bb : Balances) (st st' : State), flushBurned b
             subst this
             simp [he]
           · rfl
+
+theorem mintTriple_rinv (c : List Block) {rs : ReplayState} {st0 : State} (h0 : RInv rs st0) (mintId : Option RuneId)
+    (un0 : Balances) (height : Nat) (txid : Txid) (M : State × Outcome Balances × List Event)
+    (hM : (match mintId with
+      | none => (st0, Outcome.ok un0, ([] : List Event))
+      | some id =>
+        match mint st0 height id with
+        | (s, none) => (s, Outcome.ok un0, [])
+        | (s, some amount) => (s, addLot un0 id amount, [Event.runeMinted amount height id txid])) = M) :
+    RInv (M.2.2.foldl (applyEvent c) rs) M.1 := by
+  subst hM
+  split
+  · exact h0
+  · rename_i id
+    split
+    · rename_i s hm
+      exact mint_rinv c h0 height id txid s none hm
+    · rename_i s amount hm
+      exact mint_rinv c h0 height id txid s (some amount) hm
+
+theorem indexRunesTx_rinv (c : List Block) {rs : ReplayState} {st : State} (h : RInv rs st) (blk : Block) (i : Nat)
+    (tx : Tx) (bb : Balances) (st' : State) (bb' : Balances) (evs : List Event)
+    (hx : indexRunesTx st blk i tx bb = .ok (st', bb', evs)) :
+    RInv (evs.foldl (applyEvent c) rs) st' := by
+  unfold indexRunesTx at hx
+  split at hx
+  · cases hx
+  · cases hx
+  · rename_i st0 un0 hti
+    have h0 : RInv rs st0 := h.of_eq rfl rfl (takeInputs_rframe _ _ _ _ _ hti)
+    dsimp only at hx
+    split at hx
+    · cases hx
+    · cases hx
+    · rename_i st3 un alloc evs1 hp1
+      have hp : RInv (evs1.foldl (applyEvent c) rs) st3 := by
+        split at hp1
+        · simp only [Outcome.ok.injEq, Prod.mk.injEq] at hp1
+          obtain ⟨rfl, -, -, rfl⟩ := hp1
+          exact h0
+        · rename_i art hart
+          have hM := fun mid => mintTriple_rinv c h0 mid un0 blk.height tx.txid _ rfl
+          split at hp1
+          · cases hp1
+          · cases hp1
+          · split at hp1
+            · cases hp1
+            · cases hp1
+            · rename_i st2 et het
+              have h2 := (hM _).of_eq (st' := st2) rfl rfl (etched_rframe _ _ _ _ _ _ _ het)
+              split at hp1
+              · cases hp1
+              · cases hp1
+              · split at hp1
+                · simp only [Outcome.ok.injEq, Prod.mk.injEq] at hp1
+                  obtain ⟨rfl, -, -, rfl⟩ := hp1
+                  rw [List.foldl_append]
+                  exact createRuneEntry_rinv c h2 blk tx art _ _
+                · simp only [Outcome.ok.injEq, Prod.mk.injEq] at hp1
+                  obtain ⟨rfl, -, -, rfl⟩ := hp1
+                  exact h2
+      split at hx
+      · cases hx
+      · cases hx
+      · split at hx
+        · cases hx
+        · cases hx
+        · rename_i st4 burned evs2 hwo
+          split at hx
+          · cases hx
+          · cases hx
+          · simp only [Outcome.ok.injEq, Prod.mk.injEq] at hx
+            obtain ⟨rfl, -, rfl⟩ := hx
+            obtain ⟨hre, add, rfl, hadd⟩ := writeOutputs_rframe blk tx _ _ _ _ _ _ _ hwo
+            rw [List.append_assoc, List.foldl_append]
+            refine hp.neutral c _ ?_ hre
+            intro e he
+            rcases List.mem_append.1 he with he | he
+            · obtain ⟨a, op, id, rfl⟩ := hadd e he
+              trivial
+            · obtain ⟨x, _, rfl⟩ := List.mem_map.1 he
+              trivial
+
+theorem go_rinv (c : List Block) (blk : Block) : ∀ (l : List (Nat × Tx)) (st : State) (bb : Balances)
+    (evs0 : List Event) (st' : State) (bb' : Balances) (evs : List Event) (rs : ReplayState),
+    RInv (evs0.foldl (applyEvent c) rs) st → indexRunesBlock.go blk l st bb evs0 = .ok (st', bb', evs) →
+    RInv (evs.foldl (applyEvent c) rs) st' := by
+  intro l
+  induction l with
+  | nil =>
+    intro st bb evs0 st' bb' evs rs h hg
+    simp only [indexRunesBlock.go, Outcome.ok.injEq, Prod.mk.injEq] at hg
+    obtain ⟨rfl, -, rfl⟩ := hg
+    exact h
+  | cons p rest ih =>
+    intro st bb evs0 st' bb' evs rs h hg
+    obtain ⟨i, tx⟩ := p
+    simp only [indexRunesBlock.go] at hg
+    split at hg
+    · cases hg
+    · cases hg
+    · rename_i st1 bb1 evs1 htx
+      refine ih _ _ _ _ _ _ rs ?_ hg
+      rw [List.foldl_append]
+      exact indexRunesTx_rinv c h blk i tx bb st1 bb1 evs1 htx
+
+/-- one block of rune indexing keeps rune existence and mint counts in step with the replay -/
+theorem indexRunesBlock_rinv (c : List Block) {rs : ReplayState} {st : State} (h : RInv rs st) (blk : Block)
+    (st' : State) (evs : List Event) (hb : indexRunesBlock st blk = .ok (st', evs)) :
+    RInv (evs.foldl (applyEvent c) rs) st' := by
+  unfold indexRunesBlock at hb
+  split at hb
+  · cases hb
+  · cases hb
+  · rename_i st1 bb evs1 hgo
+    split at hb
+    · cases hb
+    · cases hb
+    · rename_i st2 hfl
+      simp only [Outcome.ok.injEq, Prod.mk.injEq] at hb
+      obtain ⟨rfl, rfl⟩ := hb
+      have h1 := go_rinv c blk _ _ _ _ _ _ _ rs (by simpa using h) hgo
+      obtain ⟨hk, hm⟩ := flushBurned_rframe _ _ _ hfl
+      exact ⟨by rw [hk]; exact h1.runes, fun id => by rw [hm id]; exact h1.mints id⟩
+
+/-- the UTXO / inscription pass leaves the rune entries alone and emits no rune etch/mint event -/
+def UtxoPassFrame (cfg : Cfg) : Prop :=
+  ∀ st blk st1 ev1, indexUtxoEntries cfg st blk = .ok (st1, ev1) →
+    st1.runeEntries = st.runeEntries ∧ ∀ e ∈ ev1, RMNeutral e
+
+/-- only the rune index is on: `applyBlock` skips the UTXO / inscription pass -/
+def RunesOnly (cfg : Cfg) : Prop :=
+  cfg.indexInscriptions = false ∧ cfg.indexAddresses = false ∧ cfg.indexSats = false
+
+theorem applyBlock_rinv (c : List Block) (cfg : Cfg) (hf : UtxoPassFrame cfg ∨ RunesOnly cfg) {rs : ReplayState}
+    {st : State} (h : RInv rs st) (blk : Block) (st' : State) (evs : List Event)
+    (hb : applyBlock cfg st blk = .ok (st', evs)) : RInv (evs.foldl (applyEvent c) rs) st' := by
+  unfold applyBlock at hb
+  dsimp only at hb
+  split at hb
+  · cases hb
+  · cases hb
+  · rename_i st1 ev1 h1
+    have hr1 : RInv (ev1.foldl (applyEvent c) rs) st1 := by
+      rcases hf with hf | ⟨ha, hb', hc⟩
+      · split at h1
+        · obtain ⟨hre, hn⟩ := hf _ _ _ _ h1
+          exact h.neutral c ev1 hn hre
+        · simp only [Outcome.ok.injEq, Prod.mk.injEq] at h1
+          obtain ⟨rfl, rfl⟩ := h1
+          exact h
+      · simp only [ha, hb', hc, Bool.or_self, Bool.false_eq_true, if_false, Outcome.ok.injEq, Prod.mk.injEq] at h1
+        obtain ⟨rfl, rfl⟩ := h1
+        exact h
+    split at hb
+    · cases hb
+    · cases hb
+    · rename_i st2 ev2 h2
+      simp only [Outcome.ok.injEq, Prod.mk.injEq] at hb
+      obtain ⟨rfl, rfl⟩ := hb
+      rw [List.foldl_append]
+      split at h2
+      · exact (indexRunesBlock_rinv c hr1 blk st2 ev2 h2).of_eq rfl rfl rfl
+      · simp only [Outcome.ok.injEq, Prod.mk.injEq] at h2
+        obtain ⟨rfl, rfl⟩ := h2
+        exact hr1.of_eq rfl rfl rfl
+
+theorem run_rinv (c : List Block) (cfg : Cfg) (hf : UtxoPassFrame cfg ∨ RunesOnly cfg) (chain : List Block)
+    (st : State) (evs : List Event) (h : run cfg chain = .ok (st, evs)) :
+    RInv (evs.foldl (applyEvent c) {}) st := by
+  refine run_induct cfg (fun _ st evs => RInv (evs.foldl (applyEvent c) {}) st) ?_ ?_ chain st evs h
+  · exact ⟨rfl, fun _ => rfl⟩
+  · intro pre st evs b st' ev' hP hb
+    rw [List.foldl_append]
+    exact applyBlock_rinv c cfg hf hP b st' ev' hb
 
 end Ord.Index
